@@ -74,7 +74,9 @@ fn worker(ctx: &Ctx, out: &mut Out) {
             ctx.breadcrumb(case, "cycle");
         }
         let mut r = Rng::derive(ctx.seed, 0xC17_0000_0000 ^ case);
-        let kind = r.weighted(&[30, 45, 25]);
+        // 0 merge timer far away, 1 merges running, 2 short interval sync, 3 interval sync far away,
+        // 4 both timers far away
+        let kind = r.weighted(&[20, 40, 20, 12, 8]);
         let mut conf = Conf::default();
         conf.max_file_size = *r.pick(&[300u64, 4096, 65_536]);
         conf.conc = *r.pick(&[1usize, 2]);
@@ -93,9 +95,19 @@ fn worker(ctx: &Ctx, out: &mut Out) {
                 conf.thr_dead = u64::MAX;
                 conf.thr_small = u64::MAX;
             }
-            _ => {
+            2 => {
                 conf.policy = Policy::Never;
                 conf.sync = SyncMode::IntervalMs(r.range(1, 5));
+            }
+            3 => {
+                conf.policy = Policy::Never;
+                conf.sync = SyncMode::IntervalMs(*r.pick(&[20_000u64, 600_000, 3_600_000]));
+            }
+            _ => {
+                conf.policy = Policy::Always;
+                conf.interval_ms = 3_600_000;
+                conf.jitter = *r.pick(&[0.0, 1.0]);
+                conf.sync = SyncMode::IntervalMs(3_600_000);
             }
         }
         shim::log_reset();
@@ -150,13 +162,30 @@ fn worker(ctx: &Ctx, out: &mut Out) {
         }
         shim::mark(M_NOTE, 100, 0); // about to drop
         let td = Instant::now();
-        st.close();
+        // the drop runs on a helper thread so that a drop that blocks (a worker that sleeps on
+        // towards a timer an hour away) is an observation and not the end of this worker
+        let kv = st.kv.take();
+        let (dtx, drx) = std::sync::mpsc::channel::<()>();
+        let dropper = std::thread::spawn(move || {
+            drop(kv);
+            let _ = dtx.send(());
+        });
+        let dropped_in_time = drx.recv_timeout(Duration::from_secs(5)).is_ok();
         let drop_took = td.elapsed();
         shim::mark(M_NOTE, 101, 0); // dropped
         out.max("slowest_drop_us", drop_took.as_micros() as u64);
-        if drop_took > Duration::from_secs(5) {
-            out.violation("close-blocks", format!("case {} (kind {}, merge interval {} ms): dropping the store took {:?}", case, kind, conf.interval_ms, drop_took), ctx.replay(case, json!({})));
+        if !dropped_in_time {
+            let alive = background_threads();
+            out.violation(
+                "close-blocks",
+                format!("case {} (kind {}, merge interval {} ms, sync {:?}): dropping the store had not returned after 5 s; {} background thread(s) alive: the worker does not stop promptly when its next timer is far away", case, kind, conf.interval_ms, conf.sync, alive),
+                ctx.replay(case, json!({})),
+            );
+            // the store object is stuck in the helper thread: nothing more can be done with this directory
+            let _ = std::fs::write(&ctx.out_path, serde_json::to_vec(&out.to_json()).unwrap());
+            std::process::exit(0);
         }
+        let _ = dropper.join();
         // use after close
         let mut post = 0;
         for (hi, h) in clones.iter().enumerate() {
@@ -250,7 +279,7 @@ fn worker(ctx: &Ctx, out: &mut Out) {
         }
         out.evaluations += 1;
         out.count("cycles", 1);
-        out.count(["cycles_timer_far_away", "cycles_merging", "cycles_interval_sync"][kind], 1);
+        out.count(["cycles_merge_timer_far_away", "cycles_merging", "cycles_interval_sync", "cycles_sync_timer_far_away", "cycles_both_timers_far_away"][kind], 1);
         out.class(format!("k{}-p{}-bg{}-n{}-i{}", kind, pause_us, (bg_during_drop > 0) as u8, nops, conf.interval_ms.min(9)));
         // sometimes keep a handle around for longer
         let mut clones = clones;
@@ -282,7 +311,7 @@ fn worker(ctx: &Ctx, out: &mut Out) {
             }
         }
         if out.samples.len() < 3 && case % 499 == 3 {
-            let kind_name = ["merge timer 1 h away", "1-5 ms merge timer, triggers exceeded", "interval sync"][kind];
+            let kind_name = ["merge timer 1 h away", "1-5 ms merge timer, triggers exceeded", "1-5 ms interval sync", "interval sync 20 s..1 h away", "merge and sync timers 1 h away"][kind];
             out.sample(json!({"case": case, "kind": kind_name, "ops": nops, "pause_before_drop_us": pause_us, "handles_kept": 1, "background_calls_after_drop": bg_after_drop, "worker_thread_gone_after_us": took.as_micros() as u64}));
         }
         if bad {
